@@ -157,6 +157,6 @@ def prespawn_scripts(rng, tier):
 
 def run(tier, seed, replay):
     kws = [dict(weights=dict(cframe=4.0)), dict(policy="black", nclients=2)]
-    return sim_check("C16", tier, seed, kws, n_quick=120, n_thorough=12000, oracle_props={"C16", "C01", "C03"}, known_ids=("D17",),
+    return sim_check("C16", tier, seed, kws, n_quick=120, n_thorough=12000, oracle_props={"C16", "C01", "C03"}, known_ids=("D17", "D32"),
                      custom_scripts=prespawn_scripts,
                      rule_extra=", plus scenarios centred on a pre-spawn mapping issued in the same or an earlier frame of the tick in which the entity becomes visible, with client-side despawn of the pre-spawned entity before arrival")
